@@ -1,6 +1,8 @@
 /- C09: decoding arbitrary bytes never panics: every decode returns ok or err (dec_no_panic at Gen.env under the
    kernel-evaluated width condition); every repeated element consumes at least one byte (elemsOK). -/
-import FinProto.Obl.Side
+import FinProto.Obl.SElems
+import FinProto.Obl.SNoOpaque
+import FinProto.Obl.SWidths
 import FinProto.Props.DecLemmas
 import FinProto.Props.CostProofs
 namespace FinProto.Obl
